@@ -89,6 +89,36 @@ class RetrieveTree(object):
         self.Tree = self.tree_mod.get('Tree')
         self.paths = []
         kw = N(self.p_kw)
+        # the entry point may keep only the goal handling and leave the recursion to a builder of its own:
+        #   retrieve_tree(item, tok, cache, kw):  [if item.fin: scores.append(..); item = item.left]  build(item, tok, cache, kw[..], ..)
+        # The builder is then read with its extra parameters standing for the user-data fields the entry point passes.
+        self.split = None
+        calls_self = any(isinstance(c_, ast.Call) and isinstance(c_.func, ast.Name) and c_.func.id == self.fn.name for c_ in ast.walk(self.fn))
+        if not calls_self:
+            cands = []
+            for c_ in ast.walk(self.fn):
+                if isinstance(c_, ast.Call) and isinstance(c_.func, ast.Name):
+                    g_ = self.mod.get(c_.func.id, required=False)
+                    if isinstance(g_, ast.FunctionDef) and g_ is not self.fn and any(
+                            isinstance(x_, ast.Call) and isinstance(x_.func, ast.Name) and x_.func.id == g_.name for x_ in ast.walk(g_)) and any(
+                            isinstance(x_, ast.Call) and isinstance(x_.func, ast.Attribute) and x_.func.attr.startswith('make_') for x_ in ast.walk(g_)):
+                        cands.append((g_, c_))
+            if len({id(g_) for g_, _ in cands}) == 1:
+                g_, c_ = cands[0]
+                gp = [x.arg for x in g_.args.args]
+                if len(gp) >= 3 and len(c_.args) == len(gp) and not c_.keywords:
+                    env = {gp[0]: N(self.p_item), gp[1]: N(self.p_tok), gp[2]: N(self.p_cache)}
+                    okm = src(c_.args[1]) == self.p_tok and src(c_.args[2]) == self.p_cache
+                    for pn, ae in zip(gp[3:], c_.args[3:]):
+                        if isinstance(ae, ast.Subscript) and isinstance(ae.value, ast.Name) and ae.value.id in aliases and isinstance(ae.slice, ast.Constant):
+                            env[pn] = S(kw, C(ae.slice.value))
+                        else:
+                            okm = False
+                    if okm:
+                        stack_params = {x_.func.value.id for x_ in ast.walk(g_) if isinstance(x_, ast.Call) and isinstance(x_.func, ast.Attribute) and x_.func.attr == 'append'
+                                        and isinstance(x_.func.value, ast.Name) and x_.func.value.id in gp[3:] and x_.args and isinstance(x_.args[0], ast.Call)
+                                        and isinstance(x_.args[0].func, ast.Attribute) and x_.args[0].func.attr.startswith('make_')}
+                        self.split = {'builder': g_, 'env': env, 'value_mode': not stack_params}
         # the user-data record's keys, by what is done with them (names are the refactorer's business)
         self.keys = {'stack': 'stack', 'scores': 'scores', 'categories': 'categories', 'tokens': 'tokens'}
         found = {}
@@ -106,7 +136,17 @@ class RetrieveTree(object):
                 elif any(c == A(N(self.p_item), 'fin') and pol for c, pol, _ in st.conds):
                     found.setdefault('scores', set()).add(key_of(t[1][1]))
             return None
-        for st, out in SymExec(self.fn, on_call=probe_call, init_env={}).run():
+        probe_runs = list(SymExec(self.fn, on_call=probe_call, init_env={}).run())
+        if self.split:
+            probe_runs += list(SymExec(self.split['builder'], on_call=probe_call, init_env=dict(self.split['env'])).run())
+            if self.split['value_mode']:
+                # the finished tree is appended by the entry point: kw[<stack>].append(build(..))
+                for c_ in ast.walk(self.fn):
+                    if isinstance(c_, ast.Call) and isinstance(c_.func, ast.Attribute) and c_.func.attr == 'append' and c_.args and isinstance(c_.args[0], ast.Call) \
+                            and isinstance(c_.args[0].func, ast.Name) and c_.args[0].func.id == self.split['builder'].name \
+                            and isinstance(c_.func.value, ast.Subscript) and isinstance(c_.func.value.slice, ast.Constant):
+                        found.setdefault('stack', set()).add(c_.func.value.slice.value)
+        for st, out in probe_runs:
             for t in (x for t0 in terms_of(st) for x in subterms(t0)):
                 if t[0] == 'sub' and key_of(t[1]):
                     if t[2] == A(N(self.p_item), 'cat'):
@@ -118,14 +158,19 @@ class RetrieveTree(object):
                 self.keys[role] = next(iter(ks))
         k_stack = S(kw, C(self.keys['stack']))
 
+        rec_names = {self.fn.name} | ({self.split['builder'].name} if self.split else set())
+        value_mode = bool(self.split and self.split['value_mode'])
+
         def on_call(st, t, node):
             stack = st.data.setdefault('stack', [])
             f = t[1]
-            if f == N(self.fn.name):
+            if f[0] == 'name' and f[1] in rec_names:
                 which = t[2][0] if t[2] else None
-                tag = which[2] if which and which[0] == 'attr' and which[1] == N(self.p_item) else show(which)
-                stack.append(('sym', 'subtree', tag))
+                tag = which[2] if which and which[0] == 'attr' and which[1] == N(self.p_item) else ('self' if which == N(self.p_item) else show(which))
                 st.data.setdefault('order', []).append(tag)
+                if value_mode:
+                    return ('sym', 'subtree', tag)          # the builder hands the subtree back instead of leaving it on the stack
+                stack.append(('sym', 'subtree', tag))
                 return ('sym', 'cat-id-of', tag)
             if is_method_call(t, 'append') and f[1] == k_stack:
                 stack.append(t[2][0])
@@ -136,9 +181,15 @@ class RetrieveTree(object):
                 return stack.pop()
             return None
 
-        ex = SymExec(self.fn, on_call=on_call, init_env={})
+        ex = SymExec(self.fn, on_call=on_call, init_env={}, no_inline=tuple(rec_names))
         for st, out in ex.run():
             self.paths.append((st, out))
+        if self.split:
+            for st, out in SymExec(self.split['builder'], on_call=on_call, init_env=dict(self.split['env']), no_inline=tuple(rec_names)).run():
+                if value_mode and out == 'return' and st.ret is not None and st.ret[0] == 'call':
+                    st.data['stack'] = st.data.get('stack', []) + [st.ret]       # what the caller receives
+                st.data['builder'] = True
+                self.paths.append((st, out))
 
     def classify(self, st):
         item = N(self.p_item)
@@ -148,6 +199,8 @@ class RetrieveTree(object):
         made = [e[1] for e in st.events if e[0] == 'call' and e[1][1][0] == 'attr' and e[1][1][1] == N('Tree')]
         if len(made) == 1:
             return {'make_terminal': 'leaf', 'make_unary': 'unary', 'make_binary': 'binary'}.get(made[0][1][2], '?')
+        if self.split and not st.data.get('builder') and not made and st.data.get('order') == ['self']:
+            return 'delegate'       # the entry point called for an item that is not a goal item: the builder does it all
         return '?'
 
 
@@ -200,7 +253,8 @@ def r_retrieve_tree(repo, rep, R, what):
         rep.check(not others, R, w(rt.fn), 'retrieve_tree:score-once', 'no score is recorded for inner nodes',
                   'scores are also appended on paths %s' % others)
     if 'shape' in what:
-        rep.check(fin_st.ret == ('sym', 'cat-id-of', 'left') and fin_st.data.get('stack') == [('sym', 'subtree', 'left')],
+        fin_rets = (('sym', 'cat-id-of', 'left'),) + ((A(A(item, 'left'), 'cat'),) if rt.split else ())
+        rep.check(fin_st.ret in fin_rets and fin_st.data.get('stack') == [('sym', 'subtree', 'left')],
                   R, w(rt.fn), 'retrieve_tree:fin:recurse',
                   'the goal item delegates to its left child (%s)' % show(rec),
                   'goal item path returns %s' % (show(fin_st.ret) if fin_st.ret else None))
@@ -231,7 +285,12 @@ def r_retrieve_tree(repo, rep, R, what):
             rep.check(ok, R, w(rt.fn), 'retrieve_tree:%s:stack' % k,
                       'the %s path leaves exactly one new tree on the result stack' % k,
                       'the %s path leaves %s on the result stack' % (k, [show(x) for x in stack]))
-            rep.check(st.ret == A(item, 'cat'), R, w(rt.fn), 'retrieve_tree:%s:return' % k,
+            ret_ok = st.ret == A(item, 'cat')
+            if rt.split:
+                # the builder's value is not used as a cache key by its parent (the key is read off the child items):
+                # it hands back nothing (stack form) or the tree it built (value form)
+                ret_ok = (st.ret is None or st.ret == C(None)) if not rt.split['value_mode'] else (st.ret is not None and stack[-1:] == [st.ret])
+            rep.check(ret_ok, R, w(rt.fn), 'retrieve_tree:%s:return' % k,
                       'the %s path returns item.cat (used as cache key by the parent)' % k,
                       'the %s path returns %s' % (k, show(st.ret) if st.ret else None))
         # unary / binary children
